@@ -38,7 +38,7 @@ theorem tape_list_readonly (verbose : Bool) (tape : Bytes) :
 
 theorem tape_extract_only_destination (verbose : Bool) (archive : Str) (into : Option Str) (tape : Bytes) :
     ∀ w ∈ (Tape.extract verbose archive into tape).writes,
-      ∃ f, w.1 = pathJoin (Tape.targetDirOf archive into) f ∧ f.contains 47 = false :=
+      ∃ f, w.1 = pathJoin (Tape.targetDirOf archive into) f ∧ f.contains 47 = false ∧ Tape.openable f = true :=
   C18.tape_confined verbose archive into tape
 
 /-! ### disk: the image does not depend on the listener (quiet / verbose) -/
